@@ -181,19 +181,20 @@ def det_runs(ctx):
         ("tl2gen:go:split", tl2gen, go_common + ["--split-internal", "--tl2WhiteList=*", "--generateByteVersions=ch_proxy.,ab."], "goldmaster", "dir"),
         ("tl2gen:go:nosplit", tl2gen, go_common + ["--generateByteVersions=cases_bytes.", "--checkLengthSanity=false"], "cases", "dir"),
         ("tl2gen:go:tl2", tl2gen, go_common + ["--tl2WhiteList=*", "--split-internal"], "test12", "dir"),
-        ("tl2gen:php", tl2gen, ["--language=php", "--php-use-builtin-data-providers", "--php-serialization-bodies", "--php-generate-meta", "--php-generate-factory"], "goldmaster", "dir"),
+        ("tl2gen:php", tl2gen, ["--language=php", "--php-use-builtin-data-providers", "--php-serialization-bodies", "--php-generate-meta", "--php-generate-factory"], "cases", "dir"),
         ("tl2gen:tlo", tl2gen, ["--language=tlo", "--schemaTimestamp=301822800"], "goldmaster", "file"),
         ("tl2gen:canonical", tl2gen, ["--language=canonical"], "goldmaster", "file"),
         ("tl2gen:tljson.html", tl2gen, ["--language=tljson.html"] + meta, "goldmaster", "file"),
         ("tl2gen:rust", tl2gen, ["--language=rust", "--tl2WhiteList=*"] + meta, "goldmaster", "dir"),
         ("tlgen:cpp", tlgen, ["--language=cpp", "--cpp-generate-meta=true", "--cpp-generate-factory=true", "--schemaTimestamp=301822800"], "cases", "dir"),
-        ("tlgen:php", tlgen, ["--language=php", "--php-serialization-bodies", "--php-generate-meta", "--php-generate-factory", "--schemaTimestamp=301822800"], "goldmaster", "dir"),
+        ("tlgen:php", tlgen, ["--language=php", "--php-serialization-bodies", "--php-generate-meta", "--php-generate-factory", "--schemaTimestamp=301822800"], "cases", "dir"),
     ]
     if not quick:
         configs += [
             ("tl2gen:go:schema", tl2gen, go_common + ["--split-internal"], "schema", "dir"),
             ("tl2gen:go:cases12", tl2gen, go_common + ["--tl2WhiteList=*"], "cases12", "dir"),
-            ("tl2gen:php:cases", tl2gen, ["--language=php", "--php-use-builtin-data-providers"], "cases", "dir"),
+            ("tl2gen:php:schema", tl2gen, ["--language=php", "--php-use-builtin-data-providers"], "schema", "dir"),
+            ("tl2gen:php:goldmaster", tl2gen, ["--language=php", "--php-use-builtin-data-providers"], "goldmaster", "dir"),
             ("tl2gen:rust:test12", tl2gen, ["--language=rust", "--tl2WhiteList=*"] + meta, "test12", "dir"),
             ("tlgen:cpp:goldmaster", tlgen, ["--language=cpp", "--schemaTimestamp=301822800"], "goldmaster", "dir"),
             ("tlgen:cpp:schema", tlgen, ["--language=cpp", "--schemaTimestamp=301822800"], "schema", "dir"),
@@ -230,9 +231,13 @@ def det_runs(ctx):
             env["GOMAXPROCS"] = str(gmp)
             rc, so, se = sh(argv, cwd=str(work), env=env, timeout=600)
             runs += 1
+            if rc != 0 and i == 0:
+                # the generator does not handle this schema at all: nothing to compare (not a determinism question)
+                stats[cid] = {"skipped": "generator fails on this input: " + trunc((so + se).strip().splitlines()[-1] if (so + se).strip() else "", 120)}
+                break
             if rc != 0:
                 failed = True
-                ctx.violation(f"C15:det:{cid}:generator-failed", f"{cid}: generator exits {rc} for input form '{form}': {trunc((so + se)[-300:], 300)}",
+                ctx.violation(f"C15:det:{cid}:generator-failed", f"{cid}: generator succeeded on the first run but exits {rc} for input form '{form}', GOMAXPROCS={gmp}: {trunc((so + se)[-300:], 300)}",
                               {"argv": argv, "cwd": "<scratch>/det", "GOMAXPROCS": gmp, "output": (so + se)[-2000:]})
                 break
             dg = digest_tree(out) if okind == "dir" else {str(p.name)[len(out.name):] or ".": hashlib.sha1(p.read_bytes()).hexdigest()
